@@ -356,9 +356,10 @@ ALL_GENS = [(1, gen_method(m)) for m in gen.METHODS]
 @check('C01')
 def c01(ctx):
     return method_check(
-        ctx, 'C01', ALL_GENS + [(2, gen_method('majorityHeuristic')), (4, gen_biased()),
-                                (2, lambda rnd: gen.biased_request(rnd, method=rnd.choice(gen.HEURISTICS), prob_mix=False))], 350, 6000,
-        'random valid requests over the seven methods (majority over-weighted: tie groups under every draw policy), currentChoice '
+        ctx, 'C01', ALL_GENS + [(2, gen_method('majorityHeuristic')), (2, gen_method('aspectEliminationHeuristic')), (2, gen_method('satisfactionHeuristic')),
+                                (4, gen_biased()),
+                                (2, lambda rnd: gen.biased_request(rnd, method=rnd.choice(gen.HEURISTICS), prob_mix=False))], 450, 8000,
+        'random valid requests over the seven methods (the three heuristics over-weighted: tie groups under every draw policy), currentChoice '
         'absent / considered / known-only, shuffled orders; half of the requests carry bias sequences of length 1-4 over the six biases; '
         'distinct = (method, sizes, currentChoice position, bias sequence, draw policy, outcome shape); '
         'non-trivial = accepted with at least two entries',
@@ -938,7 +939,7 @@ def c06(ctx):
                         'alternatives, plus random requests; every dominating and identical pair of each response is checked; '
                         'metamorphic groups: two listing-order permutations and weights x 2^m (m = -3, 1, 10, -30, 30) per request; when the correspondence '
                         'breaks, a search phase of 1500+ veto-heavy cases looks for a pair violating dominance',
-                        agree_col='agree', search_gens=[(1, veto_heavy)])
+                        agree_col='agree', search_gens=[(1, veto_heavy)], extra_corr=c05_cred)
 
 
 @check('C08')
@@ -1402,6 +1403,23 @@ def history_runs(ctx, nh, modes=('shared', 'fresh'), allc=None, cur_in=None):
                 pool[1]['methodParameters']['electreDistillation'] = rnd.choice([{'a': 0, 'b': 0.05}, {'a': -0.25, 'b': 0.5}, {'a': 0, 'b': 0.125},
                                                                                  {'a': 0, 'b': 1.0}, {'a': 0, 'b': 1.0}, {'a': 0, 'b': 0.0}])
             pool = [gen.add_biases(rnd, r, prob_mix=False) if rnd.random() < 0.3 else r for r in pool]
+        elif rnd.random() < 0.45:
+            # a method whose listener extends its parameters for an added criterion (Choquet capacities over-weighted), served repeatedly:
+            # anything remembered from the first time must not change the second
+            m = rnd.choice(['choquetIntegral', 'choquetIntegral', 'owa', 'electreIII', 'majorityHeuristic', 'weightedSum'])
+            adder = rnd.choice(['criteriaConcealment', 'criteriaMixing', 'anchoring'])
+            r0 = gen.biased_request(rnd, method=m, names=[adder], prob_mix=False)
+            if adder == 'anchoring':
+                ap = r0['biases'][0]['props']['applier']
+                ap['function'] = 'newCriterion'
+                ap['params'].setdefault('randomSeed', 7)
+                ap['params'].pop('applyOnNotConsidered', None)
+            r1 = json.loads(json.dumps(r0))
+            for a in r1['knownAlternatives']:      # the same criteria, other values and another seed
+                for k in a['criteria']:
+                    a['criteria'][k] = a['criteria'][k] + rnd.choice([0.0, 0.25, -0.5])
+            r1['biases'][0]['props']['randomSeed'] = gen.some_seed(rnd)
+            pool = [r0, r1]
         else:
             pool = [rnd.choice(others)(rnd) for _ in range(rnd.randint(1, 3))]
         seq = [rnd.choice(pool) for _ in range(rnd.randint(2, 6))]
